@@ -125,7 +125,7 @@ def main():
         cases.append(dict(ob='query', lens=lens, alphabet=al)); cases.append(dict(ob='form', lens=lens, alphabet=al))
     for al, lens in [('?a#/', (1, 2)), ('?a#/', (2, 1))]:
         cases.append(dict(ob='target', lens=lens, alphabet=al))
-    results = chk.run_cases(case, cases, label='encode/build -> decode/parse', case_timeout=400 if chk.tier == 'quick' else 2400)
+    results = chk.run_cases(case, cases, label='encode/build -> decode/parse', case_timeout=1200 if chk.tier == 'quick' else 3000)
     chk.extra['results_compared'] = sum(r.get('compared', 0) for r in results)
 
     def replay(v):
